@@ -67,7 +67,7 @@ pub fn run<C: Ciphersuite, L: Lab<C>>(lab: &mut L, p: &Params) {
     let mut submitted = BTreeMap::new();
     let mut zs: BTreeMap<Identifier<C>, (frost_core::Scalar<C>, frost_core::Scalar<C>)> = BTreeMap::new();
     for (j, id) in sess.signers.iter().enumerate() {
-        let z = lab.adv_scalar(&format!("z'{}", j + 1));
+        let z = lab.adv_scalar_among(&format!("z'{}", j + 1), &[honest[id].share().0]);
         submitted.insert(*id, sig_share_from_scalar::<C>(z));
         zs.insert(*id, (z, honest[id].share().0));
     }
